@@ -245,6 +245,13 @@ def make_assignment(ops: List[list]) -> Dict[str, Any]:
     return out
 
 
+def _first_marker(a: dict) -> str:
+    for x in a.get("actions", []) or []:
+        if x.get("k") == "mark":
+            return x["name"]
+    return "?"
+
+
 class Renderer:
     """Holds the per-run objects created while rendering one spec."""
 
@@ -290,9 +297,10 @@ class Renderer:
         if k == "pure":
             inner = [self.render_action(x) for x in a.get("actions", [])]
             rec = self.rec
+            tagname = "pure.get:" + _first_marker(a)
 
-            def getter(args, inner=inner):
-                rec.fault_site("callable", "pure.get")
+            def getter(args, inner=inner, tagname=tagname):
+                rec.fault_site("callable", tagname)
                 return list(inner)
 
             return {"type": sp.get("alias", "xstate.pure"), "params": {"get": getter}}
@@ -300,9 +308,10 @@ class Renderer:
             inner = [self.render_action(x) for x in a.get("actions", [])]
             chk = render_guard(a.get("check"), self.mid) if a.get("check") is not None else None
             rec = self.rec
+            tagname = "enqueue.callback:" + _first_marker(a)
 
-            def cb(args, inner=inner, chk=chk):
-                rec.fault_site("callable", "enqueue.callback")
+            def cb(args, inner=inner, chk=chk, tagname=tagname):
+                rec.fault_site("callable", tagname)
                 if chk is not None and not args["check"](chk):
                     return
                 for x in inner:
@@ -315,6 +324,30 @@ class Renderer:
             return {"type": "xstate.log", "params": {"expr": a.get("expr", "x")}}
         if k == "raw":
             return copy.deepcopy(a["cfg"])
+        if k == "selfloop":
+            # an action whose expansion contains itself while ctx[n] < ell (ell None = forever)
+            ell, via, name = a.get("ell"), a["via"], a["name"]
+            inc = {"type": "xstate.assign", "params": {"assignment": make_assignment([["inc", "n"]])}}
+            more = (lambda c: True) if ell is None else (lambda c, ell=ell: (c.get("n") or 0) < ell)
+            if via == "pure":
+                me: Dict[str, Any] = {"type": "xstate.pure", "params": {}}
+                me["params"]["get"] = lambda args: ([name, inc, me] if more(args["context"]) else [])
+                return me
+            if via == "enqueue":
+                me = {"type": "xstate.enqueueActions", "params": {}}
+
+                def cb(args):
+                    if more(args["context"]):
+                        args["enqueue"](name)
+                        args["enqueue"](inc)
+                        args["enqueue"](me)
+
+                me["params"]["callback"] = cb
+                return me
+            me = {"type": "xstate.choose", "params": {"conditions": []}}
+            gname = "c.n.lt.%s" % ell if ell is not None else "c.n.ge.0"
+            me["params"]["conditions"].append({"guard": gname, "actions": [name, inc, me]})
+            return me
         raise ValueError(f"unknown action kind {k}")
 
     def render_actions(self, lst: Optional[List[dict]], sp: Optional[dict] = None) -> Any:
@@ -540,6 +573,11 @@ class Renderer:
                         visit_guard(b.get("guard"))
                 elif a["k"] == "enqueue":
                     visit_guard(a.get("check"))
+                elif a["k"] == "selfloop":
+                    actions.setdefault(a["name"], mk_marker(a["name"]))
+                    ell = a.get("ell")
+                    visit_guard({"k": "ctx", "key": "n", "op": "lt", "val": ell} if ell is not None
+                                else {"k": "ctx", "key": "n", "op": "ge", "val": 0})
 
         def visit_guard(g):
             for x in walk_guards(g):
